@@ -22,6 +22,8 @@ func c13(c *core.Check) {
 	tableSlotRule(c, r2)
 
 	c13Spacing(c)
+	c13SpanWidth(c)
+	c13RowBottom(c)
 
 	r3 := c.Rule("R3", "the table layout code mirrors its side-symmetric assignments, sums margins, paddings and borders with consistent sides, and passes its named arguments in order", 6)
 	tfiles := map[string]bool{"tables.go": true}
@@ -297,5 +299,205 @@ func c13Spacing(c *core.Check) {
 	}
 	if n == 0 {
 		r.Anchor("reads of GetBorderSpacing")
+	}
+}
+
+// c13SpanWidth: the spacing term of a spanning cell's width counts the columns actually spanned.
+func c13SpanWidth(c *core.Check) {
+	p := c.Prog
+	r := c.Rule("R5", "a spanning cell covers its columns and the spacing between them: in tableLayout the factor of border-spacing in a cell's width is (n − 1) where n is the number of column widths summed into that width — len of the spanned slice, or the cell's Colspan read after it was set to that length (a span reaching beyond the grid is cut first)", 1)
+	var fns []*ssa.Function
+	for _, fn := range p.FuncsOfPkg("html/layout") {
+		root := fn
+		for root.Parent() != nil {
+			root = root.Parent()
+		}
+		if root.Name() == "tableLayout" {
+			fns = append(fns, fn)
+		}
+	}
+	n := 0
+	for _, fn := range fns {
+		fn := fn
+		core.Instrs(fn, func(in ssa.Instruction) {
+			mul, ok := in.(*ssa.BinOp)
+			if !ok || mul.Op != token.MUL {
+				return
+			}
+			isSpacing := func(v ssa.Value) bool {
+				ld, ok := v.(*ssa.UnOp)
+				if !ok {
+					return false
+				}
+				fv, ok := ld.X.(*ssa.FreeVar)
+				return ok && fv.Name() == "borderSpacingX"
+			}
+			var other ssa.Value
+			switch {
+			case isSpacing(mul.X):
+				other = mul.Y
+			case isSpacing(mul.Y):
+				other = mul.X
+			default:
+				return
+			}
+			for {
+				if cv, ok := other.(*ssa.Convert); ok {
+					other = cv.X
+					continue
+				}
+				break
+			}
+			sub, ok := other.(*ssa.BinOp)
+			if !ok || sub.Op != token.SUB {
+				return
+			}
+			if k, isK := core.ConstInt(sub.Y); !isK || k != 1 {
+				return
+			}
+			ld, isLoad := sub.X.(*ssa.UnOp)
+			if call, isCall := sub.X.(*ssa.Call); isCall {
+				if b, isB := call.Call.Value.(*ssa.Builtin); isB && b.Name() == "len" {
+					n++
+					r.OK(core.FuncName(fn)+" | borderSpacingX * (len − 1)", p.Pos(mul.Pos()), "the count is the length of the spanned slice")
+				}
+				return
+			}
+			if !isLoad {
+				return
+			}
+			fa, ok := ld.X.(*ssa.FieldAddr)
+			if !ok || core.FieldName(fa) != "Colspan" {
+				return
+			}
+			n++
+			key := core.FuncName(fn) + " | borderSpacingX * (Colspan − 1)"
+			// the latest store to the same field of the same box that dominates the load
+			var latest *ssa.Store
+			core.Instrs(fn, func(in2 ssa.Instruction) {
+				st, ok := in2.(*ssa.Store)
+				if !ok {
+					return
+				}
+				fa2, ok := st.Addr.(*ssa.FieldAddr)
+				if !ok || fa2.X != fa.X || fa2.Field != fa.Field {
+					return
+				}
+				if !instrDominates(st, ld) {
+					return
+				}
+				if latest == nil || instrDominates(latest, st) {
+					latest = st
+				}
+			})
+			if latest == nil {
+				r.Fail(key, p.Pos(mul.Pos()), "the span multiplied with the spacing is read before it is cut to the number of columns actually spanned: a cell reaching beyond the grid is wider than its columns")
+				return
+			}
+			call, isCall := latest.Val.(*ssa.Call)
+			okLen := false
+			if isCall {
+				if b, isB := call.Call.Value.(*ssa.Builtin); isB && b.Name() == "len" {
+					okLen = true
+				}
+			}
+			r.Cond(okLen, key, p.Pos(mul.Pos()), "Colspan was set to the number of spanned widths at "+p.Pos(latest.Pos()), "the Colspan read here was last set to something else than the number of spanned widths")
+		})
+	}
+	if n == 0 {
+		r.Anchor("tableLayout: borderSpacingX * (span − 1)")
+	}
+}
+
+// instrDominates: a is executed before b on every path to b.
+func instrDominates(a, b ssa.Instruction) bool {
+	if a.Block() == b.Block() {
+		for _, in := range a.Block().Instrs {
+			if in == a {
+				return true
+			}
+			if in == b {
+				return false
+			}
+		}
+		return false
+	}
+	return a.Block().Dominates(b.Block())
+}
+
+// c13RowBottom: the bottom edge of a row is computed from its final height.
+func c13RowBottom(c *core.Check) {
+	p := c.Prog
+	r := c.Rule("R6", "cells of a row share the row's height: where tableLayout computes the bottom edge of a row as PositionY + Height, the height read is the final one — no assignment of that row's Height can follow the read within the same iteration (cells are padded down to this edge)", 1)
+	n := 0
+	for _, fn := range p.FuncsOfPkg("html/layout") {
+		root := fn
+		for root.Parent() != nil {
+			root = root.Parent()
+		}
+		if root.Name() != "tableLayout" {
+			continue
+		}
+		fn := fn
+		fieldLoad := func(v ssa.Value, name string) (*ssa.UnOp, *ssa.FieldAddr) {
+			if call, ok := v.(*ssa.Call); ok && call.Call.IsInvoke() && call.Call.Method.Name() == "V" {
+				v = call.Call.Value
+			}
+			ld, ok := v.(*ssa.UnOp)
+			if !ok || ld.Op != token.MUL {
+				return nil, nil
+			}
+			fa, ok := ld.X.(*ssa.FieldAddr)
+			if !ok || core.FieldName(fa) != name {
+				return nil, nil
+			}
+			return ld, fa
+		}
+		core.Instrs(fn, func(in ssa.Instruction) {
+			add, ok := in.(*ssa.BinOp)
+			if !ok || add.Op != token.ADD {
+				return
+			}
+			_, pa := fieldLoad(add.X, "PositionY")
+			hl, ha := fieldLoad(add.Y, "Height")
+			if pa == nil || ha == nil {
+				_, pa = fieldLoad(add.Y, "PositionY")
+				hl, ha = fieldLoad(add.X, "Height")
+			}
+			if pa == nil || ha == nil || pa.X != ha.X {
+				return
+			}
+			n++
+			key := core.FuncName(fn) + " | PositionY + Height of a row"
+			var later *ssa.Store
+			reach := core.ForwardReach(hl.Block(), nil, nil)
+			core.Instrs(fn, func(in2 ssa.Instruction) {
+				st, ok := in2.(*ssa.Store)
+				if !ok {
+					return
+				}
+				fa2, ok := st.Addr.(*ssa.FieldAddr)
+				if !ok || fa2.X != ha.X || fa2.Field != ha.Field {
+					return
+				}
+				if st.Block() == hl.Block() {
+					if instrDominates(hl, st) {
+						later = st
+					}
+					return
+				}
+				if reach[st.Block()] {
+					later = st
+				}
+			})
+			if later != nil {
+				r.Fail(key, p.Pos(add.Pos()), "the height read for the bottom edge is changed afterwards at "+p.Pos(later.Pos())+": cells are aligned on an edge that is not the row's")
+			} else {
+				r.OK(key, p.Pos(add.Pos()), "no later assignment of the row's height in the iteration")
+			}
+		})
+	}
+	if n == 0 {
+		r.Anchor("tableLayout: row.PositionY + row.Height")
 	}
 }
